@@ -46,6 +46,9 @@ impl NameBuilder {
 
     pub(crate) fn add_anon_group(&mut self, entries: &[NameSpec]) -> NameId {
         let name_id = self.next_name_id();
+        // the id is handed out even if every entry is empty (and so skipped):
+        // reserve it, or the next group would be given the same id
+        self.last_nonreserved_id = name_id;
         for name_spec in entries.iter().filter(|n| !n.is_empty()) {
             self.add(name_id, name_spec.clone());
         }
